@@ -1,1 +1,897 @@
-fn main() {}
+//! C18 — JWK public projection, thumbprint and key-type coherence never leak keys.
+//!
+//! (a) `json`: every declared `kty` (4) x EVERY subset of the 13 type-specific member names
+//!     {crv,x,y,d,n,e,p,q,dp,dq,qi,oth,k} (8 192: all private subsets incl. partial RSA sets and `oth`,
+//!     all declared-type / parameter-family mismatches, all "two families at once" shapes) x optional-member
+//!     sets x member order, as JSON text through `Jwk::from_json`.
+//! (b) `json-optional`: the well-formed member sets (required members of the declared type + every
+//!     subset of its private members: 133 sets) x optional-member subsets (<=2 present / all 256) x
+//!     key_ops menu x member order.
+//! (c) `api`: the same keys built through `from_params`, `Jwk::new`+`set_params`, `set_kty`,
+//!     `try_*_params_mut`, JSON round trip; `params_mut` variant swap and `set_params_unchecked` are
+//!     executed and recorded only.
+//! (d) `method`: `VerificationMethod::new_from_jwk` (fragment / kid), `MethodBuilder::build`,
+//!     `DIDJwk -> VerificationMethod` on every key type x every private subset.
+//! (e) `generate`: `JwkMemStore::generate` output and the JSON of Core/IOTA documents after
+//!     `generate_method` in every scope.
+//!
+//! Oracle (from the property statement + RFC 7517/7518/7638/8037, independent of the implementation):
+//! accepted => `kty() == params().kty()` == declared; `is_public` <=> no private member; `to_public`
+//! has no private member, same kty and public parameters, is public, is idempotent; thumbprint ==
+//! own RFC 7638 computation over the required members (so it cannot depend on anything else).
+
+use identity_core::common::Url;
+use identity_core::convert::{FromJson, ToJson};
+use identity_did::{CoreDID, DIDJwk, DIDUrl};
+use identity_document::document::CoreDocument;
+use identity_iota_core::{IotaDocument, NetworkName};
+use identity_jose::jwk::{
+  Jwk, JwkOperation, JwkParams, JwkParamsEc, JwkParamsOct, JwkParamsOkp, JwkParamsRsa, JwkParamsRsaPrime, JwkType, JwkUse,
+};
+use identity_jose::jws::JwsAlgorithm;
+use identity_storage::{JwkDocumentExt, JwkMemStore, JwkStorage, KeyIdMemstore, Storage};
+use identity_verification::{MethodBuilder, MethodData, MethodRelationship, MethodScope, MethodType, VerificationMethod};
+use serde::{Deserialize, Serialize};
+use sha2::{Digest, Sha256};
+use std::collections::BTreeMap;
+use vx::rayon::prelude::*;
+use vx::{guard, json, Ctx, Level, Value};
+
+// ------------------------------------------------------------------ alphabets
+const KTY: [&str; 4] = ["EC", "RSA", "oct", "OKP"];
+const EC: usize = 0;
+const RSA: usize = 1;
+const OCT: usize = 2;
+const OKP: usize = 3;
+fn jwk_type(t: usize) -> JwkType {
+  [JwkType::Ec, JwkType::Rsa, JwkType::Oct, JwkType::Okp][t]
+}
+fn type_index(t: JwkType) -> usize {
+  match t {
+    JwkType::Ec => EC,
+    JwkType::Rsa => RSA,
+    JwkType::Oct => OCT,
+    JwkType::Okp => OKP,
+  }
+}
+
+/// The 13 type-specific member names; bit i of `members` = U[i] present.
+const U: [&str; 13] = ["crv", "x", "y", "d", "n", "e", "p", "q", "dp", "dq", "qi", "oth", "k"];
+fn bit(name: &str) -> u16 {
+  1 << U.iter().position(|n| *n == name).expect("member name")
+}
+fn mask(names: &[&str]) -> u16 {
+  names.iter().map(|n| bit(n)).sum()
+}
+/// Names that carry private key material in at least one key type (RFC 7518 §6.2.2, §6.3.2, §6.4.1, RFC 8037 §2).
+const PRIV: [&str; 8] = ["d", "p", "q", "dp", "dq", "qi", "oth", "k"];
+fn required(t: usize) -> &'static [&'static str] {
+  match t {
+    EC => &["crv", "x", "y"],
+    RSA => &["e", "n"],
+    OCT => &["k"],
+    _ => &["crv", "x"],
+  }
+}
+/// Private members of type `t` besides the required ones (oct's `k` is required and private).
+fn private_of(t: usize) -> &'static [&'static str] {
+  match t {
+    EC | OKP => &["d"],
+    RSA => &["d", "p", "q", "dp", "dq", "qi", "oth"],
+    _ => &[],
+  }
+}
+const OPT: [&str; 8] = ["use", "key_ops", "alg", "kid", "x5u", "x5c", "x5t", "x5t#S256"];
+const OPS_MENU: [&[&str]; 3] = [&["sign"], &["verify"], &["deriveKey", "deriveBits"]];
+
+const EC_X: &str = "MKBCTNIcKUSDii11ySs3526iDZ8AiTo7Tu6KPAqv7D4";
+const EC_Y: &str = "4Etl6SRW2YiLUrN5vfvVHuhp7x8PxltmWWlbbM4IFyM";
+const OKP_X: &str = "11qYAYKxCrfVS_7TyWQHOg7hcvPapiMlrwIaaPcHURo";
+const RSA_N: &str = "0vx7agoebGcQSuuPiLJXZptN9nndrQmbXEps2aiAFbWhM78LhWx4cbbfAAtVT86zwu1RK7aPFFxuhDR1L6tSoc_BJECPebWKRXjBZCiFV4n3oknjhMstn64tZ_2W-5JsGY4Hc5n9yBXArwl93lqt7_RN5w6Cf0h4QyQ5v-65YGjQR0_FDW2QvzqY368QQMicAtaSqzs8KJZgnYb9c7d0zgdAZHzu6qMQvRL5hajrn1n91CbOpbISD08qNLyrdkt-bFTWhAI4vMQFh6WeZu0fM4lFd2NcRwr3XPksINHaQ-G_xBniIqbw0Ls1jF44-csFCur-kEgU8awapJzKnqDKgw";
+
+/// Value of a type-specific member when the declared type is `t`. Every private value starts with
+/// `SECRET` (inside the base64url alphabet), so a leak is also visible as text.
+fn value_of(name: &str, t: usize) -> Value {
+  match name {
+    "crv" => json!(if t == OKP { "Ed25519" } else { "P-256" }),
+    "x" => json!(if t == OKP { OKP_X } else { EC_X }),
+    "y" => json!(EC_Y),
+    "n" => json!(RSA_N),
+    "e" => json!("AQAB"),
+    "oth" => json!([{"r": "SECRET_oth_r", "d": "SECRET_oth_d", "t": "SECRET_oth_t"}]),
+    p => json!(format!("SECRET_{p}")),
+  }
+}
+fn opt_value(name: &str, ops: u8) -> Value {
+  match name {
+    "use" => json!("sig"),
+    "key_ops" => json!(OPS_MENU[ops as usize % 3]),
+    "alg" => json!("EdDSA"),
+    "kid" => json!("key-1"),
+    "x5u" => json!("https://example.com/cert.pem"),
+    "x5c" => json!(["MIIBcert"]),
+    "x5t" => json!("dGh1bWI"),
+    _ => json!("dGh1bWIyNTY"),
+  }
+}
+
+// ------------------------------------------------------------------ independent RFC 7638
+fn b64url(data: &[u8]) -> String {
+  const A: &[u8; 64] = b"ABCDEFGHIJKLMNOPQRSTUVWXYZabcdefghijklmnopqrstuvwxyz0123456789-_";
+  let mut s = String::new();
+  for c in data.chunks(3) {
+    let n = (c[0] as u32) << 16 | (*c.get(1).unwrap_or(&0) as u32) << 8 | *c.get(2).unwrap_or(&0) as u32;
+    s.push(A[(n >> 18) as usize & 63] as char);
+    s.push(A[(n >> 12) as usize & 63] as char);
+    if c.len() > 1 {
+      s.push(A[(n >> 6) as usize & 63] as char);
+    }
+    if c.len() > 2 {
+      s.push(A[n as usize & 63] as char);
+    }
+  }
+  s
+}
+/// RFC 7638 §3: JSON object with exactly the required members (incl. kty), names in lexicographic
+/// order, no whitespace; SHA-256; base64url.
+fn rfc7638(t: usize, get: &dyn Fn(&str) -> Value) -> String {
+  let mut names: Vec<&str> = required(t).to_vec();
+  names.push("kty");
+  names.sort();
+  let body: Vec<String> = names
+    .iter()
+    .map(|n| format!("{}:{}", serde_json::to_string(n).unwrap(), if *n == "kty" { json!(KTY[t]).to_string() } else { get(n).to_string() }))
+    .collect();
+  b64url(&Sha256::digest(format!("{{{}}}", body.join(",")).as_bytes()))
+}
+
+// ------------------------------------------------------------------ cases
+#[derive(Serialize, Deserialize, Debug, Clone, PartialEq)]
+enum Case {
+  /// JSON text: declared kty, set of type-specific members (bits over U), optional members (bits over OPT),
+  /// key_ops menu entry, member order (0 sorted, 1 reversed, 2 rotated by half).
+  Json { kty: u8, members: u16, opts: u8, ops: u8, order: u8 },
+  /// API path (see `PATHS`), parameter family, declared/target kty, private subset (bits over private_of(fam)),
+  /// optional members, key_ops menu entry.
+  Api { path: u8, fam: u8, declared: u8, privs: u8, opts: u8, ops: u8 },
+  /// VerificationMethod constructor (see `CTORS`) on a JWK of family `fam` with private subset `privs`.
+  Method { ctor: u8, fam: u8, privs: u8 },
+  /// Key generation: document type (0 core, 1 iota), scope (0 = VerificationMethod, 1..=5 relationships),
+  /// explicit fragment?, number of methods generated one after the other.
+  Generate { doc: u8, scope: u8, fragment: bool, count: u8 },
+}
+
+const PATHS: [&str; 7] =
+  ["from_params", "new+set_params", "from_params+set_kty", "new+try_params_mut", "params_mut-variant-swap", "set_params_unchecked", "to_json+from_json"];
+const CTORS: [&str; 4] = ["new_from_jwk(fragment)", "new_from_jwk(kid)", "MethodBuilder::build", "DIDJwk->VerificationMethod"];
+
+#[derive(Default)]
+struct Verdict {
+  outcome: String,
+  viol: Vec<(String, String)>,
+  nontrivial: bool,
+}
+impl Verdict {
+  fn v(&mut self, key: impl Into<String>, what: impl Into<String>) {
+    self.viol.push((key.into(), what.into()));
+  }
+}
+
+fn json_text(kty: usize, members: u16, opts: u8, ops: u8, order: u8) -> String {
+  let mut ms: Vec<(String, Value)> = vec![("kty".to_string(), json!(KTY[kty]))];
+  for (i, n) in U.iter().enumerate() {
+    if members & (1 << i) != 0 {
+      ms.push((n.to_string(), value_of(n, kty)));
+    }
+  }
+  for (i, n) in OPT.iter().enumerate() {
+    if opts & (1 << i) != 0 {
+      ms.push((n.to_string(), opt_value(n, ops)));
+    }
+  }
+  ms.sort_by(|a, b| a.0.cmp(&b.0));
+  match order {
+    1 => ms.reverse(),
+    2 => {
+      let h = ms.len() / 2;
+      ms.rotate_left(h)
+    }
+    _ => {}
+  }
+  let body: Vec<String> = ms.iter().map(|(n, v)| format!("{}:{}", serde_json::to_string(n).unwrap(), v)).collect();
+  format!("{{{}}}", body.join(","))
+}
+
+fn object_of(j: &Jwk) -> Result<serde_json::Map<String, Value>, String> {
+  match guard(|| j.to_json_value()) {
+    Ok(Ok(Value::Object(m))) => Ok(m),
+    Ok(Ok(other)) => Err(format!("not an object: {other}")),
+    Ok(Err(e)) => Err(format!("{e}")),
+    Err(p) => Err(format!("panic {}", p.msg)),
+  }
+}
+fn private_names(m: &serde_json::Map<String, Value>) -> Vec<String> {
+  m.keys().filter(|k| PRIV.contains(&k.as_str())).cloned().collect()
+}
+/// Every object key anywhere in `v` that is a private member name.
+fn private_names_deep(v: &Value, out: &mut Vec<String>) {
+  match v {
+    Value::Object(m) => {
+      for (k, x) in m {
+        if PRIV.contains(&k.as_str()) {
+          out.push(k.clone());
+        }
+        private_names_deep(x, out);
+      }
+    }
+    Value::Array(a) => a.iter().for_each(|x| private_names_deep(x, out)),
+    _ => {}
+  }
+}
+
+/// The oracles on one coherent JWK of declared type `t` whose type-specific members have the values
+/// `value_of(_, t)`. `given_private`: Some(b) when the harness knows whether a private member of type `t`
+/// was put into the key.
+fn judge_jwk(entry: &str, j: &Jwk, t: usize, given_private: Option<bool>, v: &mut Verdict) {
+  let obj = match object_of(j) {
+    Ok(o) => o,
+    Err(e) => return v.v("Jwk::to_json|failed", e),
+  };
+  let carried = private_names(&obj);
+  // is_public <=> no private member
+  let is_public = match guard(|| j.is_public()) {
+    Ok(b) => b,
+    Err(p) => return v.v(format!("Jwk::is_public|{}", p.key()), p.msg),
+  };
+  let has_private = given_private.unwrap_or(!carried.is_empty()) || !carried.is_empty();
+  if is_public && has_private {
+    v.v("Jwk::is_public|true-with-private-member", format!("{entry}: members {:?} carried, is_public() = true", carried));
+  }
+  if !is_public && !has_private {
+    v.v("Jwk::is_public|false-without-private-member", format!("{entry}: no private member, is_public() = false"));
+  }
+  if let Some(true) = given_private {
+    if carried.is_empty() {
+      v.v("Jwk::to_json|private-member-lost", format!("{entry}: a private member was given, none is serialised"));
+    }
+  }
+  if t != OCT && is_public && matches!(guard(|| j.is_private()), Ok(true)) {
+    v.v("Jwk::is_private|true-for-public-key", entry.to_string());
+  }
+  // thumbprint == independent RFC 7638 over the required members only
+  let want_tp = rfc7638(t, &|n| value_of(n, t));
+  match guard(|| (j.thumbprint_sha256_b64(), b64url(&j.thumbprint_sha256()))) {
+    Ok((a, b)) => {
+      if a != want_tp || b != want_tp {
+        v.v("Jwk::thumbprint_sha256_b64|differs-from-rfc7638", format!("{entry}: got {a} / {b}, RFC 7638 gives {want_tp}; hash input {:?}", j.thumbprint_hash_input()));
+      }
+    }
+    Err(p) => v.v(format!("Jwk::thumbprint_sha256_b64|{}", p.key()), p.msg),
+  }
+  // public projection
+  let p = match guard(|| j.to_public()) {
+    Ok(p) => p,
+    Err(p) => return v.v(format!("Jwk::to_public|{}", p.key()), p.msg),
+  };
+  let p = match p {
+    None => {
+      if t != OCT {
+        v.v("Jwk::to_public|none-for-asymmetric-key", format!("{entry}: kty {}", KTY[t]));
+      }
+      v.outcome += "/projection:none";
+      return;
+    }
+    Some(p) => p,
+  };
+  v.outcome += "/projection:some";
+  let pobj = match object_of(&p) {
+    Ok(o) => o,
+    Err(e) => return v.v("Jwk::to_json|failed", e),
+  };
+  for n in private_names(&pobj) {
+    v.v(format!("Jwk::to_public|private-member-kept|{n}"), format!("{entry}: projection {}", Value::Object(pobj.clone())));
+  }
+  if Value::Object(pobj.clone()).to_string().contains("SECRET") {
+    v.v("Jwk::to_public|private-value-kept", format!("{entry}: projection {}", Value::Object(pobj.clone())));
+  }
+  if type_index(p.kty()) != t || pobj.get("kty") != Some(&json!(KTY[t])) || type_index(p.params().kty()) != t {
+    v.v("Jwk::to_public|kty-changed", format!("{entry}: {} -> {:?}", KTY[t], pobj.get("kty")));
+  }
+  for n in required(t) {
+    if pobj.get(*n) != Some(&value_of(n, t)) {
+      v.v(format!("Jwk::to_public|public-parameter-changed|{n}"), format!("{entry}: {:?}", pobj.get(*n)));
+    }
+  }
+  if !matches!(guard(|| p.is_public()), Ok(true)) {
+    v.v("Jwk::to_public|result-not-public", entry.to_string());
+  }
+  match guard(|| p.thumbprint_sha256_b64()) {
+    Ok(a) if a == want_tp => {}
+    other => v.v("Jwk::to_public|thumbprint-changed", format!("{entry}: {other:?} vs {want_tp}")),
+  }
+  // idempotence
+  match guard(|| p.to_public()) {
+    Ok(Some(pp)) => {
+      if pp != p {
+        let ppobj = object_of(&pp).unwrap_or_default();
+        let mut names: Vec<&String> = pobj.keys().chain(ppobj.keys()).collect();
+        names.sort();
+        let m = names.into_iter().find(|n| pobj.get(*n) != ppobj.get(*n)).cloned().unwrap_or_else(|| "?".into());
+        v.v(
+          format!("Jwk::to_public|not-idempotent|{m}"),
+          format!("{entry}: to_public() has {m} = {:?}, to_public().to_public() has {:?}", pobj.get(&m), ppobj.get(&m)),
+        );
+      }
+    }
+    Ok(None) => v.v("Jwk::to_public|not-idempotent|none", entry.to_string()),
+    Err(pn) => v.v(format!("Jwk::to_public|{}", pn.key()), pn.msg),
+  }
+}
+
+fn coherent(j: &Jwk, want: Option<usize>) -> Result<(), String> {
+  let k = type_index(j.kty());
+  let p = type_index(j.params().kty());
+  if k != p {
+    return Err(format!("kty() = {}, params() are {} parameters", KTY[k], KTY[p]));
+  }
+  if let Some(w) = want {
+    if k != w {
+      return Err(format!("declared {}, kty() = {}", KTY[w], KTY[k]));
+    }
+  }
+  Ok(())
+}
+
+fn params_of(fam: usize, privs: u8) -> JwkParams {
+  let s = |n: &str, i: u8| if privs & (1 << i) != 0 { Some(format!("SECRET_{n}")) } else { None };
+  match fam {
+    EC => JwkParams::Ec(JwkParamsEc { crv: "P-256".into(), x: EC_X.into(), y: EC_Y.into(), d: s("d", 0) }),
+    RSA => JwkParams::Rsa(JwkParamsRsa {
+      n: RSA_N.into(),
+      e: "AQAB".into(),
+      d: s("d", 0),
+      p: s("p", 1),
+      q: s("q", 2),
+      dp: s("dp", 3),
+      dq: s("dq", 4),
+      qi: s("qi", 5),
+      oth: if privs & 64 != 0 {
+        Some(vec![JwkParamsRsaPrime { r: "SECRET_oth_r".into(), d: "SECRET_oth_d".into(), t: "SECRET_oth_t".into() }])
+      } else {
+        None
+      },
+    }),
+    OCT => JwkParams::Oct(JwkParamsOct { k: "SECRET_k".into() }),
+    _ => JwkParams::Okp(JwkParamsOkp { crv: "Ed25519".into(), x: OKP_X.into(), d: s("d", 0) }),
+  }
+}
+fn n_privs(fam: usize) -> u32 {
+  1 << private_of(fam).len()
+}
+fn ops_of(ops: u8) -> Vec<JwkOperation> {
+  match ops % 3 {
+    0 => vec![JwkOperation::Sign],
+    1 => vec![JwkOperation::Verify],
+    _ => vec![JwkOperation::DeriveKey, JwkOperation::DeriveBits],
+  }
+}
+fn set_opts(j: &mut Jwk, opts: u8, ops: u8) {
+  if opts & 1 != 0 {
+    j.set_use(JwkUse::Signature);
+  }
+  if opts & 2 != 0 {
+    j.set_key_ops(ops_of(ops));
+  }
+  if opts & 4 != 0 {
+    j.set_alg("EdDSA");
+  }
+  if opts & 8 != 0 {
+    j.set_kid("key-1");
+  }
+  if opts & 16 != 0 {
+    j.set_x5u(Url::parse("https://example.com/cert.pem").unwrap());
+  }
+  if opts & 32 != 0 {
+    j.set_x5c(["MIIBcert"]);
+  }
+  if opts & 64 != 0 {
+    j.set_x5t("dGh1bWI");
+  }
+  if opts & 128 != 0 {
+    j.set_x5t_s256("dGh1bWIyNTY");
+  }
+}
+fn has_priv(fam: usize, privs: u8) -> bool {
+  fam == OCT || privs != 0
+}
+
+fn judge(case: &Case) -> Verdict {
+  let mut v = Verdict::default();
+  match *case {
+    Case::Json { kty, members, opts, ops, order } => {
+      let t = kty as usize;
+      let text = json_text(t, members, opts, ops, order);
+      let req = mask(required(t));
+      let privm = mask(private_of(t));
+      let complete = members & req == req;
+      let foreign = members & !(req | privm) != 0;
+      let given = members & privm;
+      // private sets every conforming producer may emit (RFC 7518 §6.3.2: d alone, or all CRT members, optionally + oth)
+      let regular_private = match t {
+        RSA => [0, mask(&["d"]), mask(&["d", "p", "q", "dp", "dq", "qi"]), mask(&["d", "p", "q", "dp", "dq", "qi", "oth"])].contains(&given),
+        _ => true,
+      };
+      let shape = if !complete {
+        "required-missing"
+      } else if foreign {
+        "foreign-members"
+      } else if !regular_private {
+        "partial-private"
+      } else {
+        "well-formed"
+      };
+      let r = match guard(|| Jwk::from_json(&text)) {
+        Ok(r) => r,
+        Err(p) => {
+          v.v(format!("Jwk::from_json|{}", p.key()), format!("{text}: {}", p.msg));
+          v.outcome = format!("json:{shape}:panic");
+          return v;
+        }
+      };
+      let j = match r {
+        Err(e) => {
+          if shape == "well-formed" {
+            v.v("Jwk::from_json|well-formed-jwk-rejected", format!("{text}: {e}"));
+          }
+          v.outcome = format!("json:{shape}:rejected");
+          return v;
+        }
+        Ok(j) => j,
+      };
+      v.nontrivial = true;
+      if let Err(why) = coherent(&j, Some(t)) {
+        v.v("Jwk::from_json|accepted|kty-differs-from-params-family", format!("{text}: {why}"));
+        v.outcome = format!("json:{shape}:accepted-incoherent");
+        return v;
+      }
+      v.outcome = format!("json:{shape}:accepted:{}", if given != 0 || t == OCT { "private" } else { "public" });
+      if !complete {
+        // cannot happen with a coherent result (required members are non-optional strings); nothing more to judge
+        return v;
+      }
+      let given_private = if foreign { None } else { Some(given != 0 || t == OCT) };
+      judge_jwk(&text, &j, t, given_private, &mut v);
+      // re-serialise and re-parse: the key obtained that way is coherent too
+      if let Ok(Ok(s)) = guard(|| j.to_json()) {
+        match guard(|| Jwk::from_json(&s)) {
+          Ok(Ok(back)) => {
+            if let Err(why) = coherent(&back, Some(t)) {
+              v.v("Jwk::from_json|accepted|kty-differs-from-params-family", format!("re-parse of own output {s}: {why}"));
+            }
+          }
+          Ok(Err(e)) => v.v("Jwk::from_json|own-output-rejected", format!("{s}: {e}")),
+          Err(p) => v.v(format!("Jwk::from_json|{}", p.key()), p.msg),
+        }
+      }
+    }
+    Case::Api { path, fam, declared, privs, opts, ops } => {
+      let (f, d) = (fam as usize, declared as usize);
+      let name = PATHS[path as usize];
+      let entry = format!("{name} fam={} declared={} privs={privs:#b} opts={opts:#b}", KTY[f], KTY[d]);
+      v.nontrivial = true;
+      match path {
+        0 | 3 | 6 => {
+          let built = guard(|| {
+            let mut j = if path == 3 {
+              let mut j = Jwk::new(jwk_type(f));
+              match &params_of(f, privs) {
+                JwkParams::Ec(p) => *j.try_ec_params_mut().expect("ec") = p.clone(),
+                JwkParams::Rsa(p) => *j.try_rsa_params_mut().expect("rsa") = p.clone(),
+                JwkParams::Oct(p) => *j.try_oct_params_mut().expect("oct") = p.clone(),
+                JwkParams::Okp(p) => *j.try_okp_params_mut().expect("okp") = p.clone(),
+              }
+              j
+            } else {
+              Jwk::from_params(params_of(f, privs))
+            };
+            set_opts(&mut j, opts, ops);
+            if path == 6 {
+              let s = j.to_json().map_err(|e| format!("to_json: {e}"))?;
+              return Jwk::from_json(&s).map_err(|e| format!("from_json({s}): {e}"));
+            }
+            Ok::<Jwk, String>(j)
+          });
+          let j = match built {
+            Err(p) => {
+              v.v(format!("Jwk::{name}|{}", p.key()), p.msg);
+              v.outcome = format!("api:{name}:panic");
+              return v;
+            }
+            Ok(Err(e)) => {
+              v.v(format!("Jwk::{name}|own-key-rejected"), format!("{entry}: {e}"));
+              v.outcome = format!("api:{name}:rejected");
+              return v;
+            }
+            Ok(Ok(j)) => j,
+          };
+          if let Err(why) = coherent(&j, Some(f)) {
+            v.v(format!("Jwk::{name}|kty-differs-from-params-family"), format!("{entry}: {why}"));
+            v.outcome = format!("api:{name}:incoherent");
+            return v;
+          }
+          v.outcome = format!("api:{name}:{}", if has_priv(f, privs) { "private" } else { "public" });
+          judge_jwk(&entry, &j, f, Some(has_priv(f, privs)), &mut v);
+        }
+        1 => {
+          let mut j = Jwk::new(jwk_type(d));
+          let fresh = j.clone();
+          match guard(|| j.set_params(params_of(f, privs))) {
+            Err(p) => v.v(format!("Jwk::set_params|{}", p.key()), p.msg),
+            Ok(r) => {
+              if let Err(why) = coherent(&j, Some(d)) {
+                v.v("Jwk::set_params|kty-differs-from-params-family", format!("{entry}: returned {:?}; {why}", r.is_ok()));
+              }
+              match r {
+                Ok(()) => {
+                  if f == d && j.params() != &params_of(f, privs) {
+                    v.v("Jwk::set_params|params-not-stored", entry.clone());
+                  }
+                  v.outcome = format!("api:{name}:{}", if f == d { "matching-accepted" } else { "mismatch-accepted" });
+                }
+                Err(_) => {
+                  if f == d {
+                    v.v("Jwk::set_params|matching-params-rejected", entry.clone());
+                  }
+                  if j != fresh {
+                    v.v("Jwk::set_params|rejected-but-changed", entry.clone());
+                  }
+                  v.outcome = format!("api:{name}:{}", if f == d { "matching-rejected" } else { "mismatch-rejected" });
+                }
+              }
+            }
+          }
+        }
+        2 => {
+          let mut j = Jwk::from_params(params_of(f, privs));
+          set_opts(&mut j, opts, ops);
+          match guard(|| j.set_kty(jwk_type(d))) {
+            Err(p) => v.v(format!("Jwk::set_kty|{}", p.key()), p.msg),
+            Ok(()) => {
+              if let Err(why) = coherent(&j, Some(d)) {
+                v.v("Jwk::set_kty|kty-differs-from-params-family", format!("{entry}: {why}"));
+              }
+              // documented: "Removes any previously set params" — no old private value may survive
+              let s = j.to_json().unwrap_or_default();
+              if s.contains("SECRET") {
+                v.v("Jwk::set_kty|previous-private-parameters-survive", format!("{entry}: {s}"));
+              }
+              v.outcome = format!("api:{name}:{}", if f == d { "same-type" } else { "other-type" });
+            }
+          }
+        }
+        _ => {
+          // recorded only: these two hand out unchecked access by contract
+          let mut j = Jwk::new(jwk_type(d));
+          let r = guard(|| {
+            if path == 4 {
+              *j.params_mut() = params_of(f, privs)
+            } else {
+              j.set_params_unchecked(params_of(f, privs))
+            }
+          });
+          v.outcome = match r {
+            Err(_) => format!("api:{name}:panic(recorded-only)"),
+            Ok(()) => format!("api:{name}:{}(recorded-only)", if coherent(&j, Some(d)).is_ok() { "coherent" } else { "incoherent" }),
+          };
+        }
+      }
+    }
+    Case::Method { ctor, fam, privs } => {
+      let f = fam as usize;
+      let name = CTORS[ctor as usize];
+      let entry = format!("{name} on {} key, private subset {privs:#b}", KTY[f]);
+      v.nontrivial = true;
+      let mut jwk = Jwk::from_params(params_of(f, privs));
+      jwk.set_kid("key-1");
+      let did = CoreDID::parse("did:example:123").unwrap();
+      let r: Result<Result<VerificationMethod, String>, vx::Panicked> = guard(|| match ctor {
+        0 => VerificationMethod::new_from_jwk(did.clone(), jwk.clone(), Some("frag")).map_err(|e| e.to_string()),
+        1 => VerificationMethod::new_from_jwk(did.clone(), jwk.clone(), None).map_err(|e| e.to_string()),
+        2 => MethodBuilder::default()
+          .id(DIDUrl::parse("did:example:123#frag").unwrap())
+          .controller(did.clone())
+          .type_(MethodType::JSON_WEB_KEY_2020)
+          .data(MethodData::PublicKeyJwk(jwk.clone()))
+          .build()
+          .map_err(|e| e.to_string()),
+        _ => {
+          let text = format!("did:jwk:{}", b64url(jwk.to_json().map_err(|e| e.to_string())?.as_bytes()));
+          let d = DIDJwk::parse(&text).map_err(|e| format!("did:jwk parse: {e}"))?;
+          VerificationMethod::try_from(d).map_err(|e| e.to_string())
+        }
+      });
+      match r {
+        Err(p) => {
+          v.v(format!("VerificationMethod::{name}|{}", p.key()), p.msg);
+          v.outcome = format!("method:{name}:panic");
+        }
+        Ok(Err(e)) => {
+          v.outcome = format!(
+            "method:{name}:rejected:{}:{}",
+            if has_priv(f, privs) { "private-key" } else { "public-key" },
+            if e.contains("private") || e.contains("Private") { "as-private-material" } else { "other-reason" }
+          );
+        }
+        Ok(Ok(m)) => {
+          v.outcome = format!("method:{name}:accepted:{}", if has_priv(f, privs) { "private-key" } else { "public-key" });
+          let text = m.to_json().unwrap_or_default();
+          let val: Value = serde_json::from_str(&text).unwrap_or(Value::Null);
+          let mut names = Vec::new();
+          private_names_deep(&val.get("publicKeyJwk").cloned().unwrap_or(Value::Null), &mut names);
+          names.sort();
+          names.dedup();
+          if let Some(n) = names.first() {
+            v.v(format!("VerificationMethod::{name}|accepted|private-member-{n}"), format!("{entry}: {text}"));
+          } else if text.contains("SECRET") {
+            v.v(format!("VerificationMethod::{name}|accepted|private-value-in-method"), format!("{entry}: {text}"));
+          }
+          if let MethodData::PublicKeyJwk(k) = m.data() {
+            if !k.is_public() {
+              v.v(format!("VerificationMethod::{name}|accepted|key-not-public"), entry.clone());
+            }
+          }
+        }
+      }
+    }
+    Case::Generate { doc, scope, fragment, count } => {
+      v.nontrivial = true;
+      let storage: Storage<JwkMemStore, KeyIdMemstore> = Storage::new(JwkMemStore::new(), KeyIdMemstore::new());
+      let sc = match scope {
+        0 => MethodScope::VerificationMethod,
+        1 => MethodScope::VerificationRelationship(MethodRelationship::Authentication),
+        2 => MethodScope::VerificationRelationship(MethodRelationship::AssertionMethod),
+        3 => MethodScope::VerificationRelationship(MethodRelationship::KeyAgreement),
+        4 => MethodScope::VerificationRelationship(MethodRelationship::CapabilityDelegation),
+        _ => MethodScope::VerificationRelationship(MethodRelationship::CapabilityInvocation),
+      };
+      // raw generator output
+      match guard(|| vx::gate::block_on(storage.key_storage().generate(JwkMemStore::ED25519_KEY_TYPE, JwsAlgorithm::EdDSA))) {
+        Err(p) => v.v(format!("JwkMemStore::generate|{}", p.key()), p.msg),
+        Ok(Err(e)) => v.v("JwkMemStore::generate|supported-key-type-rejected", e.to_string()),
+        Ok(Ok(out)) => {
+          let obj = object_of(&out.jwk).unwrap_or_default();
+          for n in private_names(&obj) {
+            v.v(format!("JwkMemStore::generate|output-has-private-member-{n}"), Value::Object(obj.clone()).to_string());
+          }
+          if !out.jwk.is_public() {
+            v.v("JwkMemStore::generate|output-not-public", Value::Object(obj.clone()).to_string());
+          }
+          if let Err(why) = coherent(&out.jwk, Some(OKP)) {
+            v.v("JwkMemStore::generate|kty-differs-from-params-family", why);
+          }
+        }
+      }
+      let mut core = CoreDocument::builder(Default::default()).id(CoreDID::parse("did:example:123").unwrap()).build().expect("core document");
+      let mut iota = IotaDocument::new(&NetworkName::try_from("smr").unwrap());
+      let mut label = "generated";
+      for i in 0..count {
+        let frag = format!("key-{i}");
+        let fr = if fragment { Some(frag.as_str()) } else { None };
+        let r = guard(|| {
+          vx::gate::block_on(async {
+            if doc == 0 {
+              core.generate_method(&storage, JwkMemStore::ED25519_KEY_TYPE, JwsAlgorithm::EdDSA, fr, sc).await
+            } else {
+              iota.generate_method(&storage, JwkMemStore::ED25519_KEY_TYPE, JwsAlgorithm::EdDSA, fr, sc).await
+            }
+          })
+        });
+        match r {
+          Err(p) => {
+            v.v(format!("generate_method|{}", p.key()), p.msg);
+            label = "panic";
+          }
+          Ok(Err(e)) => {
+            v.v("generate_method|fresh-fragment-rejected", e.to_string());
+            label = "rejected";
+          }
+          Ok(Ok(_)) => {}
+        }
+        let text = if doc == 0 { core.to_json() } else { iota.to_json() }.unwrap_or_default();
+        let val: Value = serde_json::from_str(&text).unwrap_or(Value::Null);
+        let mut names = Vec::new();
+        private_names_deep(&val, &mut names);
+        names.sort();
+        names.dedup();
+        if let Some(n) = names.first() {
+          v.v(format!("generate_method|document-has-private-member-{n}"), text.clone());
+        }
+        let methods = if doc == 0 { core.methods(None).len() } else { iota.methods(None).len() };
+        if label == "generated" && methods != i as usize + 1 {
+          v.v("generate_method|method-not-in-document", text);
+        }
+      }
+      v.outcome = format!("generate:{}:{}:{label}", if doc == 0 { "core" } else { "iota" }, sc.as_str());
+    }
+  }
+  v
+}
+
+fn eval(ctx: &Ctx, case: &Case) {
+  ctx.eval1();
+  let v = judge(case);
+  for (k, w) in &v.viol {
+    ctx.violation(k, w, case);
+  }
+  ctx.outcome(&v.outcome);
+  if v.nontrivial {
+    ctx.distinct(&case_key(case));
+  }
+}
+fn case_key(case: &Case) -> String {
+  serde_json::to_string(case).unwrap()
+}
+
+/// Evaluate a whole family of cases in parallel with local histograms.
+fn run_part(ctx: &Ctx, part: &str, cases: &[Case], detail: Value) {
+  for i in [0, cases.len() / 3, 2 * cases.len() / 3, cases.len() - 1] {
+    ctx.sample(part, &cases[i]);
+  }
+  cases.par_chunks(2048).for_each(|chunk| {
+    let mut hist: BTreeMap<String, u64> = BTreeMap::new();
+    let mut distinct = Vec::new();
+    for c in chunk {
+      let v = judge(c);
+      for (k, w) in &v.viol {
+        ctx.violation(k, w, c);
+      }
+      *hist.entry(v.outcome).or_insert(0) += 1;
+      if v.nontrivial {
+        distinct.push(Ctx::hash_of(&case_key(c)));
+      }
+    }
+    ctx.outcomes_merge(&hist);
+    ctx.distinct_many(distinct);
+    ctx.add_evals(chunk.len() as u64);
+  });
+  let n = cases.len() as u64;
+  ctx.add_states(n);
+  ctx.add_transitions(n);
+  ctx.add_traces(n);
+  ctx.part(part, json!({"engine": "E1 full product", "cases": n, "detail": detail}));
+}
+
+fn opt_sets(max_present: u32) -> Vec<(u8, u8)> {
+  // (opts, ops): the key_ops menu only multiplies sets that contain key_ops
+  let mut out = Vec::new();
+  for opts in 0..=255u8 {
+    if opts.count_ones() > max_present {
+      continue;
+    }
+    if opts & 2 != 0 {
+      for ops in 0..3u8 {
+        out.push((opts, ops));
+      }
+    } else {
+      out.push((opts, 0));
+    }
+  }
+  out
+}
+
+fn self_test(ctx: &Ctx) {
+  // the harness's RFC 7638 implementation against the RFCs' own examples (RFC 7638 §3.1, RFC 8037 A.3)
+  let rsa = rfc7638(RSA, &|n| value_of(n, RSA));
+  ctx.require(rsa == "NzbLsXh8uDCcd-6MNwXF4W_7noWXFZAfHkxZsRGC9Xs", &format!("own RFC 7638 thumbprint of the RFC 7638 example key is {rsa}"));
+  let okp = rfc7638(OKP, &|n| value_of(n, OKP));
+  ctx.require(okp == "kPrK_qmxVWaYVA9wwBF6Iuo3vVzz7TxHCTwXBygrS4k", &format!("own RFC 7638 thumbprint of the RFC 8037 example key is {okp}"));
+  ctx.require(b64url(b"\xfb\xff\xfe") == "-__-" && b64url(b"ab") == "YWI" && b64url(b"a") == "YQ", "own base64url encoder");
+}
+
+fn generate(ctx: &Ctx) {
+  ctx.rule("full products: (a) kty(4) x all 8192 subsets of the 13 type-specific JWK members x optional sets x order; (b) 133 well-formed member sets x optional-member subsets x key_ops menu x order; (c) API paths x family x declared x private subsets x optional sets; (d) 4 method constructors x 133 keys; (e) generation: doc type x scope x fragment x count. distinct_nontrivial = distinct cases in which a Jwk / method / document was actually obtained (everything except JSON the parser rejected)");
+  ctx.assume("sha2::Sha256 and serde_json are trusted (the harness's RFC 7638 computation is checked against the RFC 7638 and RFC 8037 example thumbprints at start-up)");
+  ctx.assume("member values are fixed base64url strings (RFC example keys; private values are SECRET_<name>); the library does not interpret them in the code under test");
+  self_test(ctx);
+  let thorough = ctx.thorough();
+
+  // (a) every member subset
+  let mut a = Vec::new();
+  let a_opts: &[u8] = if thorough { &[0, 255, 2, 0b0000_1101] } else { &[0, 255] };
+  for kty in 0..4u8 {
+    for members in 0..(1u16 << 13) {
+      for &opts in a_opts {
+        for order in 0..3u8 {
+          a.push(Case::Json { kty, members, opts, ops: 0, order });
+        }
+      }
+    }
+  }
+  run_part(ctx, "json", &a, json!({"kty": 4, "member_subsets": 8192, "optional_sets": a_opts, "orders": 3}));
+
+  // (b) well-formed member sets x optional members
+  let osets = opt_sets(if thorough { 8 } else { 2 });
+  let mut b = Vec::new();
+  for kty in 0..4u8 {
+    let t = kty as usize;
+    let pn = private_of(t);
+    for sub in 0..(1u16 << pn.len()) {
+      let mut members = mask(required(t));
+      for (i, n) in pn.iter().enumerate() {
+        if sub & (1 << i) != 0 {
+          members |= bit(n);
+        }
+      }
+      for &(opts, ops) in &osets {
+        for order in 0..3u8 {
+          b.push(Case::Json { kty, members, opts, ops, order });
+        }
+      }
+    }
+  }
+  run_part(ctx, "json-optional", &b, json!({"member_sets": 133, "optional_sets_x_key_ops": osets.len(), "orders": 3}));
+
+  // (c) API paths
+  let c_osets = opt_sets(if thorough { 8 } else { 2 });
+  let mut c = Vec::new();
+  for fam in 0..4u8 {
+    for privs in 0..n_privs(fam as usize) as u8 {
+      for path in [0u8, 3, 6] {
+        for &(opts, ops) in &c_osets {
+          c.push(Case::Api { path, fam, declared: fam, privs, opts, ops });
+        }
+      }
+      for declared in 0..4u8 {
+        for path in [1u8, 4, 5] {
+          c.push(Case::Api { path, fam, declared, privs, opts: 0, ops: 0 });
+        }
+        for opts in [0u8, 255] {
+          c.push(Case::Api { path: 2, fam, declared, privs, opts, ops: 0 });
+        }
+      }
+    }
+  }
+  run_part(ctx, "api", &c, json!({"paths": PATHS, "optional_sets_x_key_ops": c_osets.len()}));
+
+  // (d) verification method constructors
+  let mut d = Vec::new();
+  for fam in 0..4u8 {
+    for privs in 0..n_privs(fam as usize) as u8 {
+      for ctor in 0..4u8 {
+        d.push(Case::Method { ctor, fam, privs });
+      }
+    }
+  }
+  run_part(ctx, "method", &d, json!({"constructors": CTORS, "keys": 133}));
+
+  // (e) generation (random key material: only names/structure are judged)
+  let mut e = Vec::new();
+  for doc in 0..2u8 {
+    for scope in 0..6u8 {
+      for fragment in [true, false] {
+        for count in 1..=(if thorough { 4u8 } else { 2 }) {
+          e.push(Case::Generate { doc, scope, fragment, count });
+        }
+      }
+    }
+  }
+  // sequential evaluation through `eval` (few cases, async store)
+  for c in &e {
+    eval(ctx, c);
+  }
+  ctx.sample("generate", &e[0]);
+  ctx.add_states(e.len() as u64);
+  ctx.add_transitions(e.len() as u64);
+  ctx.add_traces(e.len() as u64);
+  ctx.part("generate", json!({"cases": e.len()}));
+
+  ctx.bound("member_subsets", "all 2^13 per declared kty");
+  ctx.bound("rsa_private_subsets", 128);
+  ctx.bound("optional_members_present", if thorough { "all 256 subsets" } else { "<= 2 of 8 (37 subsets)" });
+  ctx.bound("member_orders", ["sorted", "reversed", "rotated"]);
+  ctx.bound("key_ops_menu", OPS_MENU);
+}
+
+fn main() {
+  vx::run_main::<Case, _, _>("C18", Level::ModelChecking, generate, eval)
+}
